@@ -28,6 +28,7 @@ type Env struct {
 	Srv      *server.GCAServer
 	live     atomic.Pointer[server.GCAServer] // the server object last seen by a hook (set during start-up too)
 	WithDisk bool
+	catchUps int64           // catch-up polls seen in the current start-up
 	NoResp   bool            // concurrent workloads: replies are not recorded (they cannot be matched to lock events)
 	Quiet    map[string]bool // hook events not recorded
 
@@ -135,6 +136,13 @@ func (e *Env) onHook(s *server.GCAServer, _ uint64, ev string, args []interface{
 				j["post"] = e.post(s, true)
 				e.T.Emit(j)
 			})
+			// a start-up that keeps rotating without end (every poll is in the trace and judged there) would
+			// fill the disk: the driver process stops, what it recorded is validated
+			if n := atomic.AddInt64(&e.catchUps, 1); n > 40 {
+				e.T.Emit(J{"a": "DriverNote", "note": "more than 40 catch-up polls in one start-up: the driver stops"})
+				FlushAll()
+				os.Exit(5)
+			}
 			e.notify(ev)
 			return
 		}
@@ -229,6 +237,7 @@ func (e *Env) Expect(ev string) func(d time.Duration) bool {
 // Start runs NewGCAServer on the directory. The start-up is recorded as
 // StartBegin, the hook events of the catch-up rotations, and Start.
 func (e *Env) Start() error {
+	atomic.StoreInt64(&e.catchUps, 0)
 	e.T.Emit(J{"a": "StartBegin", "now": int(glow.CurrentTimeslot())})
 	var srv *server.GCAServer
 	var err error
